@@ -124,6 +124,10 @@ impl Indexable for ast::Include {
             return None;
         };
 
+        if !ctx.indexed_files.insert(include_file_id) {
+            return None;
+        }
+
         let parse = ctx.db.parse(include_file_id);
         let source_file = ast::SourceFile::cast(parse.syntax_node())?;
 
